@@ -36,7 +36,7 @@ OBLIGATIONS = [
      stubs={'_ZNSt6vectorIbSaIbEE13_M_insert_auxESt13_Bit_iteratorb': 'unreachable'},
      bound='ANY base table of 2 faces over <= 4 vertices satisfying the C13 invariants (assumed = asserted by the phase obligations), ANY symmetric set of seam edges',
      covers='MeshAttributeCornerTable::RecomputeVertices / RecomputeVerticesInternal<false>, SwingLeft/SwingRight/Opposite over seams, LeftMostCorner, num_vertices'),
-  Ob('C13.attr_vertices_3', 'C13/attrct.cc', 'h_attr_vertices', tier='extended', unwind=10, unwindset=[RV + '.0:4', RV + '.1:4', RV + '.2:6'], defines={'NF': 3, 'NV': 4}, max_alloc=64, mem_gb=20, timeout=1700, backend='kissat',
+  Ob('C13.attr_vertices_3', 'C13/attrct.cc', 'h_attr_vertices', tier='thorough', unwind=10, unwindset=[RV + '.0:4', RV + '.1:4', RV + '.2:6'], defines={'NF': 3, 'NV': 4}, max_alloc=64, mem_gb=20, timeout=3000, backend='kissat',
      stubs={'_ZNSt6vectorIbSaIbEE13_M_insert_auxESt13_Bit_iteratorb': 'unreachable'},
      bound='ANY base table of 3 faces over <= 4 vertices satisfying the C13 invariants, ANY symmetric set of seam edges',
      covers='MeshAttributeCornerTable::RecomputeVertices / RecomputeVerticesInternal<false>'),
